@@ -163,7 +163,7 @@ def run_case(case, ctx):
                 out.append(viol('C18 a target of the file is contacted on another port than its own line / the -p default names', 'line %r -> port %r, contacted %s:%s\n%s' % (
                     ospell, oport, ip, cport, ctx_txt)))
                 break
-        if not any(ip == other['ip'] for (_f, ip, _p, _o) in rec['connects']):
+        if (not pref or 4 in pref) and not any(ip == other['ip'] for (_f, ip, _p, _o) in rec['connects']):
             out.append(viol('C18 a target listed in the file was never contacted', '%r\n%s' % (ospell, ctx_txt)))
         rec = dict(rec, resolver=[q for q in rec['resolver'] if q[0] != other['host']], connects=[c for c in rec['connects'] if c[1] != other['ip']])
     for (qh, qp, qf) in rec['resolver']:
